@@ -247,7 +247,7 @@ fn short_history(rng: &mut Rng, ctx: &mut Ctx) -> Result<(), (Bad, Vec<String>)>
             fresh += 1;
             format!("f{}_{}", fresh, rng.below(1000))
         };
-        let which = rng.below(13);
+        let which = rng.below(16);
         // drive either the original or (after cloning) the clone
         let target: &mut World = match (&mut clone, rng.bool()) {
             (Some(c), true) => c,
@@ -308,6 +308,110 @@ fn short_history(rng: &mut Rng, ctx: &mut Ctx) -> Result<(), (Bad, Vec<String>)>
                         None => return Err((("lookup-misses-registered".into(), format!("name {{{}}}{} used in a parsed document is not registered", u, l)), log.clone())),
                     }
                 }
+            }
+            11 | 12 | 13 => {
+                // implicit registration by parsing a document that REUSES local names across elements, attributes,
+                // prefixes and namespaces (default namespace in scope, redeclared / undeclared below): every node
+                // name read back must be the id of its expanded name
+                let locals = ["a", "b", "id", "space", "p", "A", "title"];
+                let uris = ["urn:A", "A", "u", "a"];
+                let dflt: Option<&str> = if rng.chance(2, 3) { Some(uris[rng.below(uris.len())]) } else { None };
+                let pfx = ["p", "q", "a"][rng.below(3)];
+                let puri = uris[rng.below(uris.len())];
+                // (qname, expected expanded name) of elements in document order, with their attributes
+                let mut expect: Vec<((String, String), Vec<(String, String)>)> = Vec::new();
+                let mut text = String::new();
+                let root_local = locals[rng.below(locals.len())];
+                let root_pref = rng.chance(1, 3);
+                let root_q = if root_pref { format!("{}:{}", pfx, root_local) } else { root_local.to_string() };
+                text.push_str(&format!("<{} xmlns:{}=\"{}\"", root_q, pfx, puri));
+                if let Some(d) = dflt {
+                    text.push_str(&format!(" xmlns=\"{}\"", d));
+                }
+                text.push('>');
+                expect.push(((root_local.to_string(), if root_pref { puri.to_string() } else { dflt.unwrap_or("").to_string() }), Vec::new()));
+                for _ in 0..rng.range(1, 5) {
+                    let l = locals[rng.below(locals.len())];
+                    let pref = rng.chance(1, 3);
+                    // own default (re)declaration: another namespace, or the undeclaration
+                    let own: Option<&str> = if rng.chance(1, 4) { Some(if rng.bool() { "" } else { uris[rng.below(uris.len())] }) } else { None };
+                    let eff = own.or(dflt).unwrap_or("");
+                    let q = if pref { format!("{}:{}", pfx, l) } else { l.to_string() };
+                    text.push_str(&format!("<{}", q));
+                    if let Some(o) = own {
+                        text.push_str(&format!(" xmlns=\"{}\"", o));
+                    }
+                    let mut attrs: Vec<(String, String)> = Vec::new();
+                    let mut seen: Vec<String> = Vec::new();
+                    for _ in 0..rng.below(4) {
+                        let al = locals[rng.below(locals.len())];
+                        let ap = rng.chance(1, 3);
+                        let aq = if ap { format!("{}:{}", pfx, al) } else { al.to_string() };
+                        if seen.contains(&aq) {
+                            continue;
+                        }
+                        seen.push(aq.clone());
+                        text.push_str(&format!(" {}=\"v\"", aq));
+                        attrs.push((al.to_string(), if ap { puri.to_string() } else { String::new() }));
+                    }
+                    text.push_str("/>");
+                    expect.push(((l.to_string(), if pref { puri.to_string() } else { eff.to_string() }), attrs));
+                }
+                text.push_str(&format!("</{}>", root_q));
+                log.push(format!("parse({:?})", text));
+                let doc = match guard(|| target.xot.parse(&text)) {
+                    Ok(Ok(d)) => d,
+                    other => {
+                        return Err((("parse-failed".into(), format!("{:?}", other.map(|r| r.map(|_| ()).map_err(|e| format!("{:?}", e))).map_err(|p| p.short()))), log.clone()));
+                    }
+                };
+                // namespaces and the prefix the document used
+                for u in expect.iter().flat_map(|(e, a)| std::iter::once(&e.1).chain(a.iter().map(|x| &x.1))).cloned().collect::<Vec<_>>() {
+                    match target.xot.namespace(&u) {
+                        Some(i) => tr!(target.note_ns(&u, i, "parse")),
+                        None => return Err((("lookup-misses-registered".into(), format!("namespace {:?} used in a parsed document is not registered", u)), log.clone())),
+                    }
+                }
+                match target.xot.prefix(pfx) {
+                    Some(i) => tr!(target.note_prefix(pfx, i, "parse")),
+                    None => return Err((("lookup-misses-registered".into(), format!("prefix {:?} used in a parsed document is not registered", pfx)), log.clone())),
+                }
+                // read the ids back from the tree
+                let read = guard(|| {
+                    let x = &target.xot;
+                    let mut out: Vec<(NameId, Vec<NameId>)> = Vec::new();
+                    for n in x.descendants(doc) {
+                        if x.is_element(n) {
+                            out.push((x.node_name(n).unwrap(), x.attributes(n).keys().collect()));
+                        }
+                    }
+                    out
+                });
+                let read = match read {
+                    Ok(r) => r,
+                    Err(p) => return Err((("panic".into(), p.short()), log.clone())),
+                };
+                if read.len() != expect.len() {
+                    return Err((("parsed-name-id-wrong".into(), format!("{} elements read back, {} written", read.len(), expect.len())), log.clone()));
+                }
+                for ((eid, aids), (ename, anames)) in read.iter().zip(expect.iter()) {
+                    let got = target.xot.name_ns_str(*eid);
+                    if (got.0, got.1) != (ename.0.as_str(), ename.1.as_str()) {
+                        return Err((("parsed-name-id-wrong".into(), format!("element written as {{{}}}{} carries the id of {{{}}}{}", ename.1, ename.0, got.1, got.0)), log.clone()));
+                    }
+                    tr!(target.note_name(&ename.0, &ename.1, *eid, "parse"));
+                    if aids.len() != anames.len() {
+                        return Err((("parsed-name-id-wrong".into(), format!("{} attributes read back, {} written", aids.len(), anames.len())), log.clone()));
+                    }
+                    for (aid, an) in aids.iter().zip(anames.iter()) {
+                        let got = target.xot.name_ns_str(*aid);
+                        if (got.0, got.1) != (an.0.as_str(), an.1.as_str()) {
+                            return Err((("parsed-name-id-wrong".into(), format!("attribute written as {{{}}}{} carries the id of {{{}}}{}", an.1, an.0, got.1, got.0)), log.clone()));
+                        }
+                        tr!(target.note_name(&an.0, &an.1, *aid, "parse"));
+                    }
+                }
+                ctx.count("hostile_parses_read_back");
             }
             10 => {
                 // a rejected document that mentions fresh names: afterwards ids must still be one-to-one
@@ -465,7 +569,7 @@ impl Monitor for C08 {
         vec![Stream::new("long-histories", 4), Stream::new("short-histories", scaled(n, budget))]
     }
     fn rule(&self) -> String {
-        "four long histories (2*10^5 distinct names, 7*10^4 namespaces, 7*10^4 prefixes, 2*10^5 names arriving through parse) with ALL earlier ids re-resolved both ways at 65 535, 65 536, 65 537, 131 072 registrations and at the end, in the store and in a clone of it; short histories of 5-60 steps of add_name / add_name_ns / add_namespace / add_prefix / parse (fresh element, attribute, PI, prefix, namespace names) / html5() / Xot::clone over a pool of hot and fresh strings, with every id <-> string pair and the built-ins re-checked after every step in the store and its clone, and read-only lookups of never-registered strings. Non-trivial = history with >= 5 steps; distinct by hash of the step list".into()
+        "four long histories (2*10^5 distinct names, 7*10^4 namespaces, 7*10^4 prefixes, 2*10^5 names arriving through parse) with ALL earlier ids re-resolved both ways at 65 535, 65 536, 65 537, 131 072 registrations and at the end, in the store and in a clone of it; short histories of 5-60 steps of add_name / add_name_ns / add_namespace / add_prefix / parse (fresh element, attribute, PI, prefix, namespace names; and documents that reuse a small pool of local names across elements, prefixed and unprefixed attributes, default / redeclared / undeclared default namespaces, with every element and attribute name id read back from the tree and compared with its written expanded name) / rejected parse / html5() / Xot::clone over a pool of hot and fresh strings, with every id <-> string pair and the built-ins re-checked after every step in the store and its clone, and read-only lookups of never-registered strings. Non-trivial = history with >= 5 steps; distinct by hash of the step list".into()
     }
     fn floors(&self, _tier: Tier) -> Vec<(&'static str, u64)> {
         vec![
@@ -477,6 +581,7 @@ impl Monitor for C08 {
             ("id_resolutions_checked", 1_000_000),
             ("clone_checks", 1_000),
             ("clone_from_checks", 500),
+            ("hostile_parses_read_back", 1_000),
         ]
     }
     fn assumptions(&self) -> Vec<String> {
